@@ -46,6 +46,13 @@ __all__ = ['PipeRelay', 'MaildropRelay', 'DovecotLdaRelay']
 log = logging.getSubprocessLogger(__name__)
 
 
+def _to_str(output):
+    # Process output is bytes, unless the caller asked Popen for text.
+    if isinstance(output, bytes):
+        return output.decode('utf-8', 'replace')
+    return output
+
+
 class PipeRelay(Relay):
     """When delivery attempts are made on this object, it will create a new
     subprocess and pipe envelope data to it. Delivery success or failure
@@ -169,8 +176,7 @@ class PipeRelay(Relay):
 
         """
         error_msg = stdout.rstrip() or stderr.rstrip() or 'Delivery failed'
-        if isinstance(error_msg, bytes):
-            error_msg = error_msg.decode('utf-8')
+        error_msg = _to_str(error_msg)
         if self._permanent_error_pattern.match(error_msg):
             reply = Reply('550', error_msg)
             raise PermanentRelayError(error_msg, reply)
@@ -209,6 +215,7 @@ class MaildropRelay(PipeRelay):
         super(MaildropRelay, self).__init__(args, timeout)
 
     def raise_error(self, status, stdout, stderr):
+        stdout, stderr = _to_str(stdout), _to_str(stderr)
         error_msg = 'Delivery failed'
         if stdout.startswith('maildrop: '):
             error_msg = stdout[10:].rstrip()
@@ -248,7 +255,8 @@ class DovecotLdaRelay(PipeRelay):
         super(DovecotLdaRelay, self).__init__(args, timeout)
 
     def raise_error(self, status, stdout, stderr):
-        error_msg = stdout.rstrip() or stderr.rstrip() or 'LDA delivery failed'
+        error_msg = _to_str(stdout.rstrip() or stderr.rstrip() or
+                            'LDA delivery failed')
         if status == self.EX_TEMPFAIL:
             reply = Reply('450', error_msg)
             raise TransientRelayError(error_msg, reply)
